@@ -300,6 +300,10 @@ def run_case(case, seed):
                 rel = "transposed"
             elif rank2 and bh.sup(sea_d + su_d.swapaxes(1, 2)) / scale <= TOL:
                 rel = "transposed_opposite_sign"
+            elif bh.sup(sea_d) <= TOL * scale:
+                rel = "sea_vanishes"
+            elif bh.sup(su_d) <= TOL * scale:
+                rel = "surface_vanishes"
             else:
                 # common factor ?
                 f = float(np.vdot(B.ravel(), A.ravel()).real / max(np.vdot(B.ravel(), B.ravel()).real, 1e-300))
